@@ -53,6 +53,16 @@ func genDecodeInput(r *Rand, fn string) Doc {
 	// what a reader half-consumes before giving up, directly followed by null
 	prefixNull := []string{"-null", "tnull", "fnull", "trunull", "1e999null", "-1e999null", "4294967296null", "2147483648null", "18446744073709551616null", "9223372036854775808null",
 		`"ab\u12null`, `"abnull`, "1.null", "1enull", "1e+null", "-null ", " -null", "nnull", "nunull", "nulnull", "0null", "1null", `"a"null`, "truenull", "[null", "{null", ",null", ":null"}
+	// every numeric function sees the boundary values of every numeric type
+	numPool := []string{"0", "-0", "1", "-1", "127", "128", "-128", "-129", "255", "256", "32767", "32768", "-32768", "-32769", "65535", "65536",
+		"2147483647", "2147483648", "-2147483648", "-2147483649", "4294967295", "4294967296",
+		"9223372036854775807", "9223372036854775808", "-9223372036854775807", "-9223372036854775808", "-9223372036854775809",
+		"18446744073709551615", "18446744073709551616", "-18446744073709551615", "123456789012345678", "1234567890123456789", "12345678901234567890", "99999999999999999999",
+		"1.0", "1e0", "-0.0", "1e999", "-1e999", "0.5", "1e-400", "00", "-", "+1", "01", "1.", "1e", "0x10"}
+	if fn != "DecodeString" && fn != "DecodeBool" && r.Chance(1, 3) {
+		s := numPool[r.Intn(len(numPool))]
+		return docOf([]byte([]string{"", " ", "\n"}[r.Intn(3)]+s+[]string{"", ",", " ", "]", "x"}[r.Intn(5)]), "numeric-boundary")
+	}
 	switch r.Pick(6, 5, 3, 3, 3, 2, 1, 3) {
 	case 7:
 		return docOf([]byte(prefixNull[r.Intn(len(prefixNull))]), "prefix-then-null")
